@@ -621,8 +621,10 @@ class Scenario(object):
     def run(self, chooser, max_steps=60, drain_outcome=None, drain_steps=200):
         """chooser(step, options) -> index or None (= stop deciding, drain)"""
         c = self.ctl
-        signal.signal(signal.SIGALRM, _alarm)
-        signal.setitimer(signal.ITIMER_REAL, 20.0)
+        signal.signal(signal.SIGPROF, _alarm)
+        # CPU time of this process, not wall-clock time: a busy loop trips it, a loaded machine does not (a wall-clock alarm once
+        # fired inside a bounce greenlet of a perfectly healthy run: found by the thorough tier under load)
+        signal.setitimer(signal.ITIMER_PROF, 20.0)
         taken = []
         try:
             if self.cfg.get('started', True):
@@ -672,7 +674,7 @@ class Scenario(object):
         except Watchdog:
             c.log(t='watchdog', now=c.now())
         finally:
-            signal.setitimer(signal.ITIMER_REAL, 0)
+            signal.setitimer(signal.ITIMER_PROF, 0)
             try:
                 self.q.kill()
                 if self.bq is not None:
